@@ -1806,14 +1806,38 @@ class Module(ABC):
         if name in channel_names:
             channel_cols = list(channel.channel_params.keys())
             channel_cols += list(channel.channel_states.keys())
-            self.base.nodes.loc[self._nodes_in_view, channel_cols] = float("nan")
             self.base.nodes.loc[self._nodes_in_view, name] = False
+
+            # A parameter (or state) can be shared with other channels, e.g. `eK` of
+            # `K` and `Km`. It is kept wherever another channel which uses it remains.
+            other_channels = [c for c in self.base.channels if c._name != name]
+            shared_cols = []
+            for col in channel_cols:
+                owners = [
+                    c._name
+                    for c in other_channels
+                    if col in c.channel_params or col in c.channel_states
+                ]
+                still_used = np.zeros(len(self._nodes_in_view), dtype=bool)
+                if owners:
+                    shared_cols.append(col)
+                    still_used = (
+                        self.base.nodes.loc[self._nodes_in_view, owners]
+                        .astype(bool)
+                        .any(axis=1)
+                        .to_numpy()
+                    )
+                self.base.nodes.loc[self._nodes_in_view[~still_used], col] = float(
+                    "nan"
+                )
 
             # only delete cols if no other comps in the module have the same channel
             if np.all(~self.base.nodes[name]):
                 self.base.channels.pop(all_channel_names.index(name))
-                self.base.membrane_current_names.remove(channel.current_name)
-                self.base.nodes.drop(columns=channel_cols + [name], inplace=True)
+                if channel.current_name not in [c.current_name for c in other_channels]:
+                    self.base.membrane_current_names.remove(channel.current_name)
+                cols_to_drop = [col for col in channel_cols if col not in shared_cols]
+                self.base.nodes.drop(columns=cols_to_drop + [name], inplace=True)
         else:
             raise ValueError(f"Channel {name} not found in the module.")
 
